@@ -23,6 +23,8 @@ What is read (token level; comments dropped, `#if 0 / #else / #endif` evaluated,
   src/cgns_header.h  CGNS_DELETE_SHIFT / CGNS_DELETE_CHILD   normalised token text of the two macros -> `macro_shift`,
         `macro_child` (the Gallina transcription in Mirror.v is pinned to these texts)
   src/cgns_internals.c  every `void cgi_free_X(cgns_Y *p)`  -> `free_sigs` (free function -> struct type it frees)
+  src/cgns_internals.c  every qsort call, the comparator sort_childnode_names and the callers of cgi_sort_names
+        -> `sort_calls`, `sort_comparator`, `sort_names_callers` (which arrays are ordered by name when a file is read)
   src/cgnslib.c  every cg_*_write with an explicit overwrite loop  -> `write_table`: one WRow per loop with a column
         for EVERY use of the count / array / parent variable in the template (loop bound, name compared, id deleted,
         slot re-used, slot freed, `index == count` test, allocation, slot appended, count incremented, returned index)
@@ -635,6 +637,40 @@ def parse_ctx_writers(toks):
     return rows
 
 
+# ----------------------------------------------------------------------------- what is sorted on read
+def parse_sorting(itoks, ltoks):
+    """every qsort call of cgns_internals.c as "function: count expression / comparator", the return expression of the
+    comparator, and the call sites of cgi_sort_names (an insertion sort that is defined but -- now -- never called)"""
+    v = vals(itoks)
+    fns = functions(itoks)
+    calls = []
+    for fname, (b0, b1) in sorted(fns.items(), key=lambda kv: kv[1][0]):
+        for i in range(b0, b1):
+            if v[i] == "qsort" and v[i + 1] == "(":
+                args, _ = split_args(itoks, i + 1)
+                av = [" ".join(vals(t)) for t in args]
+                calls.append("%s: %s / %s" % (fname, av[1] if len(av) > 1 else "?", av[3] if len(av) > 3 else "?"))
+    cmp_text = "MISSING"
+    if "sort_childnode_names" in fns:
+        b0, b1 = fns["sort_childnode_names"]
+        for i in range(b0, b1):
+            if v[i] == "return":
+                j = i
+                while v[j] != ";":
+                    j += 1
+                cmp_text = " ".join(v[i:j])
+    callers = []
+    for toks in (itoks, ltoks):
+        vv = vals(toks)
+        ff = functions(toks)
+        for fname, (b0, b1) in ff.items():
+            if fname == "cgi_sort_names":
+                continue
+            if any(vv[i] == "cgi_sort_names" and vv[i + 1] == "(" for i in range(b0, b1)):
+                callers.append(fname)
+    return calls, cmp_text, sorted(callers)
+
+
 # ----------------------------------------------------------------------------- output
 def translate(repo):
     ltoks = load(repo, "cgnslib.c")
@@ -671,6 +707,11 @@ def translate(repo):
     out.append("Definition addr_tails : list atail := [\n  %s\n]." % ";\n  ".join(parse_addr_tails(itoks)))
     out.append("")
     out.append("Definition ctx_writers : list nrow := [\n  %s\n]." % ";\n  ".join(parse_ctx_writers(ltoks)))
+    out.append("")
+    calls, cmp_text, callers = parse_sorting(itoks, ltoks)
+    out.append("Definition sort_calls : list string := %s." % clist([cs(c) for c in calls]))
+    out.append("Definition sort_comparator : string := %s." % cs(cmp_text))
+    out.append("Definition sort_names_callers : list string := %s." % clist([cs(c) for c in callers]))
     out.append("")
     return "\n".join(out)
 
